@@ -116,12 +116,12 @@ class BibliographyData(object):
 
     def __repr__(self):
 
-        repr_entry = repr(self.entries)
-        keys = self.entries.keys()
-
-        for key in keys:
-            ind = repr_entry.index(key) - 2  # find first instance
-            repr_entry = repr_entry[:ind] + "\n" + repr_entry[ind:]
+        # one "(key, entry)" pair per line; built from the items, not by
+        # searching the keys in the repr text (a key may occur earlier in it)
+        repr_entry = "{0}([{1}])".format(
+            type(self.entries).__name__,
+            ", ".join("\n" + repr(item) for item in self.entries.items()),
+        )
 
         repr_entry = indent(repr_entry, prefix="    ")
         repr_entry = repr_entry[4:]  # drop 1st indent
